@@ -380,3 +380,247 @@ pub fn case(rng: &mut Rng, w: &Weights, tag: &str) -> String {
     }
     out
 }
+
+// ---------------------------------------------------------------------------------------------------------
+// C01: a network is distilled (a) by the real builder in one call and (b) step by step with the same public
+// operations the builder uses; (b) is dumped as a history, and the final trees of (a) and (b) are compared.
+
+use affinitree::distill::builder::{afftree_from_layers, Layer};
+use affinitree::linalg::affine::Polytope;
+
+fn layer_desc(l: &Layer) -> String {
+    match l {
+        Layer::Linear(a) => {
+            let mut s = String::from("linear ");
+            enc::aff(&mut s, a);
+            s
+        }
+        Layer::ReLU(i) => format!("relu {}", i),
+        Layer::LeakyReLU(i, a) => format!("leaky {} {}", i, enc::num(*a)),
+        Layer::HardTanh(i) => format!("hard_tanh {}", i),
+        Layer::HardSigmoid(i) => format!("hard_sigmoid {}", i),
+        Layer::Argmax => "argmax".to_string(),
+        Layer::ClassChar(c) => format!("class_char {}", c),
+    }
+}
+
+pub fn net_case(rng: &mut Rng, thorough: bool) -> String {
+    let n = 1 + rng.below(3);
+    let mut out = String::new();
+    write!(out, "HIST C01 {} ", enc::num(1e-8)).unwrap();
+    // precondition
+    let pre: Option<(Polytope, AffTree<2>)> = if rng.chance(1, 2) {
+        let rows = 1 + rng.below(3);
+        let p = match rng.below(4) {
+            0 => Polytope::hypercube(n, 1.0 + rng.below(3) as f64),
+            1 => {
+                // contains an infeasible tail: the chain of decisions has an empty last region
+                let mut q = rand_poly(rng, rows, n);
+                let r0 = q.mat.row(0).to_owned();
+                let b0 = q.bias[0];
+                let mut mat = q.mat.clone();
+                let mut bias = q.bias.clone();
+                mat.push_row((&r0 * -1.0).view()).unwrap();
+                bias.append(ndarray::Axis(0), ndarray::arr1(&[-b0 - 1.0]).view()).unwrap();
+                q = Polytope::from_mats(mat, bias);
+                q
+            }
+            _ => rand_poly(rng, rows, n),
+        };
+        // without else-branch (partial) or with one (total: infeasible tails can be removed, the tree shrinks)
+        let t = if rng.chance(1, 2) {
+            AffTree::<2>::from_poly(p.clone(), AffFunc::identity(n), None).unwrap()
+        } else {
+            let other = rand_aff(rng, n, n);
+            AffTree::<2>::from_poly(p.clone(), AffFunc::identity(n), Some(&other)).unwrap()
+        };
+        Some((p, t))
+    } else if rng.chance(1, 4) {
+        // an arbitrary total tree as precondition
+        let m = 1 + rng.below(3);
+        let tp = TreeParams { in_dim: n, out_dim: m, max_depth: 2, partial16: 0, holes: false };
+        let t: AffTree<2> = rand_tree(rng, &tp);
+        Some((Polytope::unbounded(n), t))
+    } else {
+        None
+    };
+    // layers
+    let mut layers: Vec<Layer> = Vec::new();
+    let mut dim = match &pre {
+        Some((_, t)) => t.terminals().map(|x| x.aff.outdim()).next().unwrap(),
+        None => n,
+    };
+    let dim_start = dim;
+    let maxhidden = if thorough { 3 } else { 2 };
+    let hidden = 1 + rng.below(maxhidden);
+    for _ in 0..hidden {
+        let width = 1 + rng.below(3);
+        layers.push(Layer::Linear(rand_aff(rng, width, dim)));
+        dim = width;
+        for i in 0..dim {
+            match rng.below(8) {
+                0 | 1 | 2 => layers.push(Layer::ReLU(i)),
+                3 => layers.push(Layer::LeakyReLU(i, *rng.pick(&[0.5, 0.25, 2.0, -1.0]))),
+                4 => layers.push(Layer::HardTanh(i)),
+                5 => layers.push(Layer::HardSigmoid(i)),
+                _ => {}
+            }
+        }
+    }
+    if rng.chance(1, 2) {
+        let width = 1 + rng.below(3);
+        layers.push(Layer::Linear(rand_aff(rng, width, dim)));
+        dim = width;
+    }
+    if dim >= 2 && rng.chance(1, 2) {
+        if rng.chance(1, 2) {
+            layers.push(Layer::Argmax);
+        } else {
+            layers.push(Layer::ClassChar(rng.below(dim)));
+        }
+    }
+    // (b) step by step
+    let mut t: AffTree<2> = match &pre {
+        Some((_, tree)) => {
+            out.push_str("precondition");
+            tree.clone()
+        }
+        None => {
+            write!(out, "new {}", n).unwrap();
+            AffTree::<2>::new(n)
+        }
+    };
+    out.push_str(" | ");
+    enc::afftree(&mut out, &t);
+    let pts: Vec<Array1<f64>> = {
+        let mut p = rand_points(rng, &t, 6);
+        p.extend((0..8).map(|_| rand_int_vec(rng, n)));
+        p
+    };
+    write!(out, " {}", pts.len()).unwrap();
+    for x in &pts {
+        out.push(' ');
+        enc::vec(&mut out, x);
+    }
+    let evals = |t: &AffTree<2>| -> String {
+        let mut s = String::new();
+        for x in &pts {
+            s.push(' ');
+            s.push_str(&eval_guard(t, x));
+        }
+        s
+    };
+    out.push_str(&evals(&t));
+    let mut d = dim_start;
+    let mut panicked = false;
+    for l in &layers {
+        // the operations of `afftree_from_layers_generic` for this layer
+        let mut ops: Vec<(String, Box<dyn FnOnce(&mut AffTree<2>)>, i32)> = Vec::new();
+        match l {
+            Layer::Linear(a) => {
+                let mut s = String::from("apply_func ");
+                enc::aff(&mut s, a);
+                let a2 = a.clone();
+                d = a.outdim();
+                ops.push((s, Box::new(move |t| t.apply_func(&a2)), 0));
+            }
+            Layer::ReLU(r) => {
+                let g = schema::partial_ReLU(d, *r);
+                ops.push((format!("compose0 schema relu {} {}", d, r), Box::new(move |t| t.compose::<false, false>(&g)), 0));
+                ops.push(("elim".to_string(), Box::new(|t| { t.infeasible_elimination(); }), 1));
+            }
+            Layer::LeakyReLU(r, a) => {
+                let g = schema::partial_leaky_ReLU(d, *r, *a);
+                ops.push((format!("compose0 schema leaky {} {} {}", d, r, enc::num(*a)), Box::new(move |t| t.compose::<false, false>(&g)), 0));
+                ops.push(("elim".to_string(), Box::new(|t| { t.infeasible_elimination(); }), 1));
+            }
+            Layer::HardTanh(r) => {
+                let g = schema::partial_hard_tanh(d, *r, -1., 1.);
+                ops.push((format!("compose0 schema hard_tanh {} {} {} {}", d, r, enc::num(-1.0), enc::num(1.0)), Box::new(move |t| t.compose::<false, false>(&g)), 0));
+                ops.push(("elim".to_string(), Box::new(|t| { t.infeasible_elimination(); }), 1));
+            }
+            Layer::HardSigmoid(r) => {
+                let g = schema::partial_hard_sigmoid(d, *r);
+                ops.push((format!("compose0 schema hard_sigmoid {} {} {} {} {}", d, r, enc::num(3.), enc::num(1. / 6.), enc::num(0.5)), Box::new(move |t| t.compose::<false, false>(&g)), 0));
+                ops.push(("elim".to_string(), Box::new(|t| { t.infeasible_elimination(); }), 1));
+            }
+            Layer::Argmax => {
+                let g = schema::argmax(d);
+                ops.push((format!("compose1 schema argmax {}", d), Box::new(move |t| t.compose::<true, false>(&g)), 0));
+                d = 1;
+            }
+            Layer::ClassChar(c) => {
+                let g = schema::class_characterization(d, *c);
+                ops.push((format!("compose1 schema class_char {} {}", d, c), Box::new(move |t| t.compose::<true, false>(&g)), 0));
+                d = 1;
+            }
+        }
+        for (desc, run, opclass) in ops {
+            out.push_str(" ; ");
+            write!(out, "{} 0 | ", desc).unwrap();
+            let mut next = t.clone();
+            verif_hooks::start(HashMap::new());
+            let res = catch_unwind(AssertUnwindSafe(|| run(&mut next)));
+            let trace = verif_hooks::take_trace();
+            let log = verif_hooks::stop();
+            if res.is_err() {
+                out.push_str("panic");
+                panicked = true;
+                break;
+            }
+            out.push_str("ok ");
+            enc::afftree(&mut out, &next);
+            out.push(' ');
+            lp_log(&mut out, &log);
+            write!(out, " {}", trace.len()).unwrap();
+            for (i, st) in &trace {
+                write!(out, " {} ", i).unwrap();
+                enc::state(&mut out, st);
+            }
+            out.push_str(&evals(&next));
+            out.push_str(" noref");
+            if opclass == 1 {
+                let mut again = next.clone();
+                verif_hooks::start(HashMap::new());
+                let r = catch_unwind(AssertUnwindSafe(|| again.infeasible_elimination()));
+                let log2 = verif_hooks::stop();
+                let mut a = String::new();
+                let mut b = String::new();
+                enc::afftree(&mut a, &again);
+                enc::afftree(&mut b, &next);
+                match r {
+                    Ok(counter) => write!(out, " idem {} {} {}", if a == b { 1 } else { 0 }, counter.lps_solved, log2.len()).unwrap(),
+                    Err(_) => out.push_str(" idem 0 999 999"),
+                }
+            } else {
+                out.push_str(" noidem");
+            }
+            out.push_str(" nobase");
+            t = next;
+        }
+        if panicked {
+            break;
+        }
+    }
+    // (a) the real builder, and the specification side
+    out.push_str(" NET ");
+    write!(out, "{} {}", n, layers.len()).unwrap();
+    for l in &layers {
+        out.push(' ');
+        out.push_str(&layer_desc(l));
+    }
+    let pre_tree = pre.as_ref().map(|(_, t)| t.clone());
+    let built = catch_unwind(AssertUnwindSafe(|| afftree_from_layers(n, &layers, pre_tree)));
+    match built {
+        Ok(b) => {
+            let mut sa = String::new();
+            let mut sb = String::new();
+            enc::afftree(&mut sa, &b);
+            enc::afftree(&mut sb, &t);
+            write!(out, " built {}", if !panicked && sa == sb { 1 } else { 0 }).unwrap();
+            out.push_str(&evals(&b));
+        }
+        Err(_) => out.push_str(" buildpanic"),
+    }
+    out
+}
